@@ -145,7 +145,7 @@ PROPS = {
  "C16": {
   "props_modules": ["Ps3.Props.C16"],
   "streams": [{"name": "c16", "timeout_quick": 300, "timeout_thorough": 1200}],
-  "rule": "the real server on loopback TCP with ReadTimeout T = 300 ms (thorough: 200, 400, 1000 ms) x 9 timing scripts: silent after connect, silent after 3 requests, stalled in the middle of a command, stalled in the middle of a path, a request every T/2 for 6T, one command dribbled in over 1.5T, a request in two halves, path after command, long-lived mixed requests; plus T = 0. Observed: number of responses and the time of the cut in buckets of T/2, compared with the timed model",
+  "rule": "the real server on loopback TCP with ReadTimeout T = 300 ms (thorough: 200, 400, 1000 ms) x 9 timing scripts: silent after connect, silent after 3 requests, stalled in the middle of a command, stalled in the middle of a path, a request every T/2 for 6T, one command dribbled in over 1.5T, a request in two halves, path after command, long-lived mixed requests; plus T = 0; plus the write side: a client that asks for 512 MiB and reads nothing for 3T (must be cut and the served file's descriptor closed by then) and one that drains 256 MiB over about 3T (must receive all of it). Observed: number of responses and the time of the cut in buckets of T/2, compared with the timed model",
   "assumptions": ["real timers, TCP and the scheduler are runtime behaviour: cut times compared in buckets of T/2 (tolerance about +-T/4)", "scripts avoid arrivals exactly at a deadline"],
  },
  "C17": {
@@ -169,7 +169,7 @@ LEVEL_TEXT = {
         "Tie: differential against the harness's own stat walk.",
  "C15": "Logic proved, runtime observed. Theorems on the listener state machine: at most N connections hold a slot in every reachable state (any arrival/departure order, mixed with rejected arrivals); a peer outside the whitelist at the head of the queue is closed without ever being served and its slot is free again; an insider arriving with a free slot is served at once; a departing connection frees its slot and a waiting insider takes it immediately. "
         "Tie: the real listener wrappers on loopback TCP with clients bound to chosen 127.x.y.z addresses.",
- "C16": "Logic proved, runtime observed. Theorems on the timed model of the serve loop: a connection whose complete requests arrive less than T apart is never cut and every request is answered, for any number of requests; an idle one (after connect, after k requests, with an incomplete request pending) is cut exactly T after the last loop top; late bytes are never served; T = 0 never cuts; with the deadline armed outside the loop an active client would be cut (witness). "
+ "C16": "Logic proved, runtime observed. Theorems on the timed model of the serve loop: a connection whose complete requests arrive less than T apart is never cut and every request is answered, for any number of requests; an idle one (after connect, after k requests, with an incomplete request pending) is cut exactly T after the last loop top; late bytes are never served; T = 0 never cuts; with the deadline armed outside the loop an active client would be cut (witness); write side: a response write blocked for T ends the connection (stalled_reader_cut), a client that keeps draining is never cut however long the whole response takes (draining_reader_never_cut). "
         "Tie: timing scripts against the real server over TCP.",
  "C17": "Theorems: (start,count) are decoded in wire order; the answer is exactly the concatenation of the 2048-byte user-data slices at 24+(start+k)*S, closing iff a sector is cut short (after the correct prefix), nothing for count 0; detection returns the first candidate whose sector 16 carries either signature, for each of the 7 sizes. "
         "Tie: synthesised images with an independent slice oracle.",
